@@ -2,6 +2,7 @@
 import ast
 import multiprocessing
 import os
+import re
 import subprocess
 import tempfile
 import time
@@ -134,7 +135,11 @@ class Engine(EngineBase, ExprMixin, StmtMixin, CallMixin, PreludeMixin, FoldMixi
             wf = self.spec_frame(mod, c.qual, cname, dict(entry_env))
             wf.closure.update(saved)
             st.env = {}
-            sf.closure[g] = self.coerce_to(st, self.ev1(self.parse_spec(gexpr), st, wf), self.reg.kind(gk))
+            try:
+                sf.closure[g] = self.coerce_to(st, self.ev1(self.parse_spec(gexpr), st, wf), self.reg.kind(gk))
+            except CheckerError:
+                if not label.startswith('raises'):
+                    raise           # an exceptional exit may come before the witness is bound; its clauses cannot name it
         st.env = {}
         try:
             for j, text, tags in self.clauses(ensures):
@@ -253,17 +258,43 @@ def _solve_one(args):
     # portfolio.  (0) if the goal applies no recursive spec function, first try without the hypotheses that do
     # (fewer hypotheses => sound; these are the ones that make the search seed-dependent); (1) z3 briefly;
     # (2) cvc5 on the same query; (3) z3 with the full budget, another seed; (4) z3, assertions reversed.
+    sliced = None
     if rec_ctx and not _has_rec(ob.goal):
         sliced = [c for c in pcs if not _has_rec(c)]
-        if len(sliced) < len(pcs):
-            s0 = z3.Solver()
-            s0.set('timeout', min(timeout_ms, 6000))
-            s0.set('random_seed', seed)
-            s0.add(*sliced)
-            s0.add(z3.Not(ob.goal))
-            if s0.check() == z3.unsat:
-                return idx, 'unsat', time.time() - t0, None, 'z3-sliced'
+        if len(sliced) == len(pcs):
+            sliced = None
     s.add(z3.Not(ob.goal))
+    # (0a) strings as atoms: if the query uses strings only through equality, literals and uninterpreted functions, the
+    # String sort is replaced by an uninterpreted sort with pairwise distinct constants for the literals.  Every model
+    # over real strings is a model of the abstraction, so `unsat` carries over (sound); z3's sequence solver is what
+    # makes such queries slow (0.03 s instead of > 60 s on the C18 obligations).  Tried on the sliced query first.
+    if os.environ.get('VERIF_STRABS', '1') != '0':
+        for hyps, tag in ((sliced, 'z3-sliced-strabs'), (pcs, 'z3-strabs')):
+            if hyps is None:
+                continue
+            sq = z3.Solver()
+            sq.add(*hyps)
+            sq.add(z3.Not(ob.goal))
+            abs_text = _strabs(sq.to_smt2())
+            if abs_text is None:
+                break
+            try:
+                s1 = z3.Solver()
+                s1.set('timeout', min(timeout_ms, 10000))
+                s1.set('random_seed', seed)
+                s1.add(*z3.parse_smt2_string(abs_text))
+                if s1.check() == z3.unsat:
+                    return idx, 'unsat', time.time() - t0, None, tag
+            except z3.Z3Exception:
+                break
+    if sliced is not None:
+        s0 = z3.Solver()
+        s0.set('timeout', min(timeout_ms, 6000))
+        s0.set('random_seed', seed)
+        s0.add(*sliced)
+        s0.add(z3.Not(ob.goal))
+        if s0.check() == z3.unsat:
+            return idx, 'unsat', time.time() - t0, None, 'z3-sliced'
     s.set('timeout', min(timeout_ms, 4000))
     r = s.check()
     backend = 'z3'
@@ -296,6 +327,29 @@ def _solve_one(args):
     elif r == z3.unknown:
         smt2 = s.to_smt2()
     return idx, str(r), time.time() - t0, model, ('z3', smt2)
+
+
+_STR_LIT = re.compile(r'"(?:[^"]|"")*"')
+_STR_OPS = re.compile(r'\((?:str\.|re\.|seq\.|int\.to\.str|_ char|_ re)')
+
+
+def _strabs(text):
+    """SMT-LIB text with the String sort abstracted to an uninterpreted sort (None if the query applies string
+    operations other than equality / literals / uninterpreted functions)."""
+    if 'String' not in text:
+        return None
+    lits = sorted(set(_STR_LIT.findall(text)))
+    body = _STR_LIT.sub(lambda m: 'strlit!%d' % lits.index(m.group(0)), text)
+    if _STR_OPS.search(body) or 'RegLan' in body or 'Seq ' in body:
+        return None
+    body = re.sub(r'\bString\b', 'StrAtom', body)
+    decl = '(declare-sort StrAtom 0)\n' + ''.join('(declare-fun strlit!%d () StrAtom)\n' % i for i in range(len(lits)))
+    if len(lits) > 1:
+        decl += '(assert (distinct %s))\n' % ' '.join('strlit!%d' % i for i in range(len(lits)))
+    marker = '(set-info :status unknown)'
+    if marker not in body:
+        return None
+    return body.replace(marker, marker + '\n' + decl, 1)
 
 
 def _has_rec(e):
